@@ -52,6 +52,13 @@ func ZzC19() {
 		for _, o := range opts {
 			o(&lastOpts)
 		}
+		if zz.Bool("request.slow") {
+			// slow trusted peers: the answer arrives an arbitrary time after the request was sent
+			d := zz.Dur("request.d")
+			zz.Assume(d > 0 && int64(d) < lim)
+			zz.Advance(d)
+			zz.Reach("slow-request")
+		}
 		a := zz.Choice("head.answer", K+1)
 		if a == K {
 			lastAnswer = nil
